@@ -254,6 +254,13 @@ def type_tables(chk, F):
     for tname in midi.TYPE:
         if tname not in names:
             chk.ob('%s/type-code/%s/%s' % (PID, cfg, tname), 'type table', 'refuted', expected='variant exists', found='missing', nontrivial=False)
+    for cname, want in (('MIN', 0x80), ('MAX', 0xFF)):
+        fk = SMT + '::' + cname
+        if fk in F.fns:
+            I, outs, args = run_fn(F, fk)
+            ok = len(outs) == 1 and outs[0].kind == 'return' and isinstance(outs[0].value, Sc) and outs[0].value.term == C(want)
+            chk.ob('%s/type-code/%s/%s' % (PID, cfg, cname), 'type table', 'proved' if ok else 'refuted', subject=fn_subject(F, fk),
+                   expected=hex(want), found=[repr(o.value) for o in outs], nontrivial=False)
     # per variant: super_type / main_category, u8::from
     for i, v in enumerate(a['variants']):
         tname = v['name']
